@@ -1534,6 +1534,19 @@ class Parameter(_ParameterBase):
                 result = self.default
         return result
 
+    def _held_value(self, obj):
+        """
+        The value the attribute reads on the instance `obj` (see __get__):
+        the instance's own value if it has one, otherwise the default of
+        the class's Parameter. `self` may be the instance's own copy of
+        that Parameter, whose default is only a snapshot of the class's.
+        """
+        try:
+            return obj._param__private.values[self.name]
+        except KeyError:
+            cls_param = type(obj).param._cls_parameters.get(self.name, self)
+            return cls_param.default
+
     @instance_descriptor
     def __set__(self, obj, val):
         """
@@ -1604,10 +1617,10 @@ class Parameter(_ParameterBase):
                 _old = self.default
                 self.default = val
             elif not obj._param__private.initialized:
-                _old = obj._param__private.values.get(self.name, self.default)
+                _old = self._held_value(obj)
                 obj._param__private.values[self.name] = val
             else:
-                _old = obj._param__private.values.get(self.name, self.default)
+                _old = self._held_value(obj)
                 if val is not _old:
                     raise TypeError("Constant parameter '%s' cannot be modified" % name)
         else:
@@ -1620,7 +1633,7 @@ class Parameter(_ParameterBase):
                     obj._param__private = _InstancePrivate(
                         explicit_no_refs=type(obj)._param__private.explicit_no_refs
                     )
-                _old = obj._param__private.values.get(name, self.default)
+                _old = self._held_value(obj)
                 obj._param__private.values[name] = val
         if relink is not None:
             relink()
